@@ -293,6 +293,8 @@ def normalize_l1(events):
                         'nrecs': int(e.get('nrecs', 0)), 'kind': e.get('kind', ''), 'phase': e.get('phase', ''),
                         'torn': int(e.get('torn', 0)), 'inside': bool(e.get('inside')), 'unaligned': bool(e.get('unaligned')),
                         'ingc': bool(e.get('ingc')), 'hintahead': e.get('hintahead') or [], 'op': int(e.get('op', -1))})
+        elif a == 'Counters':
+            out.append({'a': 'Counters', 'n': n, 'd': [int(x) for x in e.get('d') or []]})
         elif a == 'End':
             out.append({'a': 'End', 'n': n})
         else:
